@@ -209,3 +209,76 @@ def run_cases(binp, cases, timeout=3000):
         if l.strip():
             r = json.loads(l); out[r["id"]] = r
     return out, p.returncode, p.stderr
+
+
+def gen_big_record_case(rng, cid):
+    """what the status of a run looks like for a DAG of >100 steps or with long outputs: records far beyond 64 KiB, in
+       compacted files (one line) and in the files a killed agent leaves (several lines, the later ones the big ones)"""
+    dags = ["big.yaml", "other.yaml"]
+    ops, pay, k = [], 0, 0
+    reqs = []
+    t = BASE + rng.randrange(DAY)
+    for run in range(rng.randint(2, 3)):
+        req = "%08x-%04d" % (rng.randrange(1 << 32), run); reqs.append(req)
+        t += rng.randint(1000, 90000)
+        ops.append({"op": "open", "k": k, "d": 0, "t": t, "req": req})
+        nw = rng.randint(2, 4)
+        for w in range(nw):
+            big = 0 if w == 0 else rng.choice([66000, 90000, 140000, 300000])
+            ops.append({"op": "write", "k": k, "req": req, "p": "p%d" % pay, "st": 1 if w < nw - 1 else rng.choice([2, 4]), "big": big}); pay += 1
+        ops.append({"op": "abandon" if (run == 1 or rng.random() < 0.3) else "close", "k": k})
+        k += 1
+    t += 5000
+    ops.append({"op": "open", "k": k, "d": 1, "t": t, "req": "0ther-0001"})
+    ops.append({"op": "write", "k": k, "req": "0ther-0001", "p": "p%d" % pay, "st": 4}); pay += 1
+    ops.append({"op": "close", "k": k})
+    return {"id": "big%s" % cid, "dags": dags, "ops": ops, "today": False, "reqs": reqs + ["0ther-0001", "nosuchreq"], "ns": [1, 2, 5]}
+
+
+def big_record_leg(chk, prop, what, n=None):
+    """the history store as the other properties' code reads it (latest status: the daemon's start guard and the status
+       reports; look-up by request id: retry, status edits): records of every size must come back as recorded.
+       `what`: which clause of `prop` rests on these reads (goes into the verdict)."""
+    import common
+    binp, out = common.build_harness("hist")
+    if not binp:
+        chk.oblige("harness-build:hist", False, out[-3000:]); return
+    cases = [gen_big_record_case(chk.rng, k) for k in range(n or (4 if chk.tier == "quick" else 24))]
+    results, rc, err = run_cases(binp, cases)
+    if rc != 0:
+        chk.oblige("harness-run:hist(big records)", False, err[-2000:]); return
+    nq = 0
+    for c in cases:
+        r = results.get(c["id"])
+        if r is None or r.get("panic"):
+            chk.violation(prop + ":history-read:store-panics-or-gives-no-answer:big-records", "%s: %s" % (what, (r or {}).get("panic", "no result")), {"hist_case": c}); continue
+        spec = Spec(c)
+        for i, o in enumerate(c["ops"]):
+            if i >= len(r["answers"] or []): break
+            a = r["answers"][i]
+            spec.apply(o); nq += 1
+            if a.get("skip"): continue
+            bad = list(spec.check(a, i))
+            if bad:
+                sig, detail = bad[0]
+                chk.violation("%s:history-read:%s:status-records-beyond-64KiB" % (prop, sig),
+                              "%s — %s (after op %d %s)" % (what, detail, i, json.dumps(o)), {"hist_case": dict(c, ops=c["ops"][:i + 1])})
+                break
+    chk.evaluations += nq
+    chk.stats = dict(chk.stats or {}, big_record_reads=nq)
+
+
+def replay_big_record(chk, prop, what, case):
+    import common
+    binp, out = common.build_harness("hist")
+    results, rc, err = run_cases(binp, [case])
+    r = results.get(case["id"]) or {}
+    spec = Spec(case)
+    for i, o in enumerate(case["ops"]):
+        if i >= len(r.get("answers") or []): break
+        spec.apply(o)
+        a = r["answers"][i]
+        if a.get("skip"): continue
+        bad = list(spec.check(a, i))
+        if bad:
+            chk.violation("%s:history-read:%s:status-records-beyond-64KiB" % (prop, bad[0][0]), "%s — %s" % (what, bad[0][1]), {"hist_case": case}); break
